@@ -10,6 +10,7 @@ def run(ctx, rep):
     recursion.rule_host_reentry_guarded(ctx, rep, "C02-R3")
     recursion.rule_data_recursion_guarded(ctx, rep, "C02-R3b", floor=4)
     recursion.rule_depth_budget_shared(ctx, rep, "C02-R3c")
+    recursion.rule_host_wrappers_counted(ctx, rep, "C02-R3d")
     emitrules.report(
         ctx,
         rep,
